@@ -189,6 +189,7 @@ class Func:
         self.fresh_result = False
         self.escaping = set()      # parameters stored by the function
         self.text = None
+        self.commits_last = None   # record methods: exception safety
 
 
 def ind(s, n=2):
@@ -369,11 +370,56 @@ class Translator:
                                    or spec.selfstate):
             raise Refuse(f'{spec.qual}: a procedure that returns a value')
         text = header_lets + self.block(body, env, self.end_of_function)
-        # declared out-parameters must be the ones changed in place
         fi.text = text
+        if spec.record:
+            # exception safety: does every change of a field of self come
+            # after the last statement that can raise?
+            changed, safe = False, True
+            for st in body:
+                m = self.mutates_self(st)
+                if self.can_fail(st) and (changed or m):
+                    safe = False
+                changed = changed or m
+            fi.commits_last = safe
+            self.note(
+                'every change of a field of self comes after the last '
+                'statement that can raise: a call that raises leaves the '
+                'object unchanged' if safe else
+                'fields of self are changed before or inside statements '
+                'that can raise: after an exception the object keeps the '
+                'partial changes; the translation returns only the error '
+                'value')
         self.funcs[spec.qual] = fi
         self.cur = None
         return fi
+
+    def mutates_self(self, s):
+        """Does statement s (or a nested one) change a field of self?"""
+        def is_field(e):
+            x = self.lvalue_name(e)
+            return x is not None and x.startswith('self.')
+        for n in ast.walk(s):
+            if isinstance(n, ast.Assign):
+                for t in n.targets:
+                    if is_field(t.value if isinstance(t, ast.Subscript)
+                                else t):
+                        return True
+            if isinstance(n, ast.Call):
+                f = n.func
+                if isinstance(f, ast.Attribute) and is_field(f.value) \
+                        and f.attr in ('update', 'append'):
+                    return True
+                try:
+                    callee, _ = self.resolve(n, {})
+                except Refuse:
+                    callee = None
+                if callee is not None:
+                    if callee.spec.selfstate or callee.spec.record:
+                        return True
+                    for (p, k, m), a in zip(callee.spec.params, n.args):
+                        if m == 'out' and is_field(a):
+                            return True
+        return False
 
     def wrap_ok(self, t):
         return f'Ok {t}' if self.cur.failing else t
@@ -1383,7 +1429,14 @@ def emit(tr, fi):
     if fi.failing:
         rt = f'res ({rt})'
     head = f'Definition {spec.coq} {ps}'.rstrip() + f' : {rt} :=\n'
-    return head + ind(fi.text) + '.'
+    out = head + ind(fi.text) + '.'
+    if fi.commits_last is not None:
+        out += (f'\n\n(* does every change of a field of self come after the '
+                'last statement\n   that can raise (a call that raises '
+                'leaves the object unchanged)? *)\n'
+                f'Definition {spec.coq}_commits_last : bool := '
+                + ('true' if fi.commits_last else 'false') + '.')
+    return out
 
 
 def tr_uses_self(fi):
